@@ -157,6 +157,8 @@ def run(db, chk):
     chk.absorb(db, "C10", {"C10-X1", "C10-X2"}, "C09-P6", "parallel regions write shared tables only at indices "
                "derived from their block and the donors are registered sequentially afterwards (shared with "
                "C10-X1 / X2): the resulting state cannot depend on the thread interleaving", min_instances=14)
+    chk.absorb(db, "C19", {"C19-L2"}, "C09-P8", "basins / pits are recomputed from the tables held at the time of the "
+               "query (shared with C19-L2): a cached result would describe an earlier update", min_instances=3)
     chk.absorb(db, "C20", {"C20-T4"}, "C09-P7", "the operator sequence's move assignment transfers every member "
                "(shared with C20-T4): the pass-through / copy decision of update_routes follows the sequence "
                "actually held", min_instances=50)
